@@ -53,6 +53,50 @@ type session struct {
 	// Wide: the stored messages are two-field tokens although this subscriber may have no read mask (the
 	// sessions of the shared-bus family, multi.go: one collection, several differently configured subscribers)
 	Wide bool `json:"wide,omitempty"`
+	// Icpt: "" | "lower" - the collection is built WithIDInterceptor(strings.ToLower) (a case-insensitive
+	// collection) and the ops carry the ids as the callers spell them (`A` for `a`).  The spec (shadow map,
+	// predicates, folds) lives on canonical ids only: whatever a writer's spelling, the item, its seed, its
+	// events and its List entry are `a`'s.
+	Icpt string `json:"id_interceptor,omitempty"`
+}
+
+// canonOp is the write on the canonical id: what the plain-map spec is given.
+func canonOp(icpt, op string) string {
+	if icpt != "lower" {
+		return op
+	}
+	q := strings.Split(op, ":")
+	if len(q) > 1 {
+		q[1] = strings.ToLower(q[1])
+	}
+	return strings.Join(q, ":")
+}
+
+// collectionOpts: the options of the session's collection (equivalence, id interceptor).
+func collectionOpts(equiv, icpt string) []resource.Option {
+	var copts []resource.Option
+	if equiv != "" {
+		copts = append(copts, resource.WithEquivalence(resource.ComparerFunc(func(x, y proto.Message) bool {
+			return equivTok(equiv, tokOf(x), tokOf(y))
+		})))
+	}
+	if icpt == "lower" {
+		copts = append(copts, resource.WithIDInterceptor(strings.ToLower))
+	}
+	return copts
+}
+
+// respell gives some of the ops' ids another spelling the interceptor maps back (upper case).
+func respell(r *rand.Rand, ops []string) []string {
+	out := make([]string, len(ops))
+	for i, op := range ops {
+		q := strings.Split(op, ":")
+		if r.Intn(2) == 0 {
+			q[1] = strings.ToUpper(q[1])
+		}
+		out[i] = strings.Join(q, ":")
+	}
+	return out
 }
 
 const raceGrace = 20 * time.Millisecond
@@ -93,7 +137,7 @@ func projTok(mask, tok string) string {
 }
 
 func (s session) opSuffix() string {
-	if s.Mask == "" && s.Equiv == "" && !s.UpdatesOnly {
+	if s.Mask == "" && s.Equiv == "" && !s.UpdatesOnly && s.Icpt == "" {
 		return ""
 	}
 	m, e, u := s.Mask, s.Equiv, "0"
@@ -105,6 +149,9 @@ func (s session) opSuffix() string {
 	}
 	if s.UpdatesOnly {
 		u = "1"
+	}
+	if s.Icpt != "" {
+		return ":" + m + ":" + e + ":" + u + ":" + s.Icpt
 	}
 	return ":" + m + ":" + e + ":" + u
 }
@@ -248,14 +295,7 @@ func listWithInclude(c *resource.Collection, p pred, extra ...resource.ReadOptio
 
 // run executes the session on the real code.  Returns the seed burst observation first.
 func (s session) run() (obs []burstObs) {
-	var copts []resource.Option
-	if s.Equiv != "" {
-		kind := s.Equiv
-		copts = append(copts, resource.WithEquivalence(resource.ComparerFunc(func(x, y proto.Message) bool {
-			return equivTok(kind, tokOf(x), tokOf(y))
-		})))
-	}
-	c := resource.NewCollection(copts...)
+	c := resource.NewCollection(collectionOpts(s.Equiv, s.Icpt)...)
 	for _, op := range s.Ops[:s.NBefore] {
 		_ = applyOp(c, op)
 	}
@@ -628,9 +668,12 @@ func bpName(b bool) string {
 func (s session) monitor(m sink, obs []burstObs) {
 	sh := shadow{}
 	for _, op := range s.Ops[:s.NBefore] {
-		sh.apply(op)
+		sh.apply(canonOp(s.Icpt, op))
 	}
 	pre := "C08/Pull/bp=" + bpName(s.BP) + "/"
+	if s.Icpt != "" {
+		m.Count("collection with an id interceptor")
+	}
 	vf := &viewFold{view: map[string]string{}, equiv: s.Equiv}
 	if s.UpdatesOnly {
 		// no seed: the subscriber folds onto the (masked) filtered collection it listed when subscribing
@@ -661,7 +704,10 @@ func (s session) monitor(m sink, obs []burstObs) {
 		// expected per-write events (exact with backpressure)
 		var expected []expectation
 		for oi, op := range b.Ops {
-			ok, pubs := sh.apply(op)
+			if op != canonOp(s.Icpt, op) {
+				m.Count("write under a non-canonical spelling of the id: " + strings.Split(op, ":")[0])
+			}
+			ok, pubs := sh.apply(canonOp(s.Icpt, op))
 			want := "ok"
 			if !ok {
 				want = "fail"
@@ -719,7 +765,7 @@ func (s session) monitor(m sink, obs []burstObs) {
 			// state at subscription = shadow before this burst's writes: recompute
 			sh0 := shadow{}
 			for _, op := range s.Ops[:s.NBefore] {
-				sh0.apply(op)
+				sh0.apply(canonOp(s.Icpt, op))
 			}
 			want := sh0.filtered(s.Pred, s.Mask)
 			if s.UpdatesOnly {
@@ -932,6 +978,11 @@ func genSession(r *rand.Rand, bp bool, small bool) session {
 	}
 	if r.Intn(5) == 0 {
 		s.UpdatesOnly = true
+	}
+	if r.Intn(6) == 0 {
+		// a case-insensitive collection; half of the writes spell their id in upper case
+		s.Icpt = "lower"
+		s.Ops = respell(r, s.Ops)
 	}
 	if !p.Nil && nb > 0 && r.Intn(90) == 0 {
 		// a writer as concurrent with the subscription as can be: see session.RaceFirst
